@@ -31,7 +31,7 @@ RULE = (
 )
 ASSUMPTIONS = [
     "time is the deterministic step clock of sim.stepclock (sys.monitoring JUMP + PY_START events); wall-clock is only a harness safety net",
-    "hard budget 2*10^7 steps (fault-free runs of the workloads are <= 5*10^4 steps); a run over the first-stage budget (100 x fault-free + 2*10^5) is re-run under the hard budget before any verdict",
+    "hard budget 2*10^7 steps (fault-free runs of the workloads are <= 1.5*10^5 steps); a run over the first-stage budget (100 x fault-free + 2*10^5) is re-run under the hard budget before any verdict",
     "no verdict when an explicit loop count observed at run time (range() in the code generator) or a literal in a .for header exceeds 64: the statement exempts explicit loop counts",
     "an exception other than the step-budget signal (including RecursionError, UnicodeDecodeError) is a reported error; MemoryError under a 4 GiB address-space limit counts as non-termination (unbounded growth)",
     "loops inside C code (regular expressions) execute no Python step: they are caught by a CPU-time limit on the child (20 s, confirmed under 90 s; a fault-free run needs ~0.02 s of CPU) - a verdict by CPU time, not by step count, so its replay is repeatable but not step-exact",
@@ -114,7 +114,7 @@ SOUP_TOKENS = [
     "|", "<<", ">>", "==", "!=", "<", ">", "~", ".", ":", "\\", "?", "\0", "\t", "\n", "\n", "identifier=1", "bank_range=0,1", "é", "x := 1", "i := 0, 2",
 ]  # fmt: skip
 SOUP_TOKENS += [c for c in "!\"#$%&'()*+,-./:;<=>?@[\\]^_`{|}~"]  # every ASCII punctuation character on its own
-SOUP_TOKENS += [".include 'missing_zq.s'", ".include 'sub/missing_zq.s'", ".include 'other.s'", ".incbin 'missing_zq.bin'", ".table 'zoo.tbl'\n.text 'AB[0x40'", ".table 'zoo.tbl'\n.text '[0x40]A[0x41'", ".table 'zoo.tbl'\n.text '[0x'", ".table 'zoo.tbl'\n.text 'A]B[C'", ".table 'zoo.tbl'\n.text '[0xZZ]'", ".table 'zoo.tbl'\n.text ''", ".macro cy(a) {\n {{ a }}\n}\ncy({\n {{ a }}\n})", ".macro cz(a, b) {\n {{ a }}\n}\ncz({\n {{ b }}\n}, {\n {{ a }}\n})", "{\n {\n .text 'AB'\n }\n}", ".macro r() {\n r()\n}\nr()", ".macro ra() {\n rb()\n}\n.macro rb() {\n ra()\n}\nra()", ".macro q(b) {\n {{ b }}\n}\nq({\n q({\n nop\n})\n})", "{ { { { { { { {", "( ( ( ( ( ( (", "lda ((((((((1", "lda #-1", "lda -1", "#-1", "-1", ".ascii 'a fairly long string, never closed, with enough characters", "'" + "x" * 40, "lda #1 %", "lda (", "lda [", "lda #(", "lda.w #A %", ".db 1 %", "'main.s'", ".include 'main.s'", "a.b.c", "a..b", "0x", "0b", "0o7", "1e5", "lda.", "lda.w", ".", "..", ".db", ".db ,", ",,", "{{ x", "x }}", "*=", "@= 1", "x :=", "x =", "m(,)", "m((", "))"]
+SOUP_TOKENS += [".macro fill(n) {\n .db n\n fill(n + 1)\n fill(n + 1)\n}\nfill(0)", ".macro ping() {\n pong()\n pong()\n}\n.macro pong() {\n ping()\n ping()\n}\nping()", ".macro spin() {\n nop\n spin()\n spin()\n spin()\n}\nspin()", ".macro dz(b) {\n {{ b }}\n {{ b }}\n}\ndz({\n dz({\n nop\n })\n})", ".include 'missing_zq.s'", ".include 'sub/missing_zq.s'", ".include 'other.s'", ".incbin 'missing_zq.bin'", ".table 'zoo.tbl'\n.text 'AB[0x40'", ".table 'zoo.tbl'\n.text '[0x40]A[0x41'", ".table 'zoo.tbl'\n.text '[0x'", ".table 'zoo.tbl'\n.text 'A]B[C'", ".table 'zoo.tbl'\n.text '[0xZZ]'", ".table 'zoo.tbl'\n.text ''", ".macro cy(a) {\n {{ a }}\n}\ncy({\n {{ a }}\n})", ".macro cz(a, b) {\n {{ a }}\n}\ncz({\n {{ b }}\n}, {\n {{ a }}\n})", "{\n {\n .text 'AB'\n }\n}", ".macro r() {\n r()\n}\nr()", ".macro ra() {\n rb()\n}\n.macro rb() {\n ra()\n}\nra()", ".macro q(b) {\n {{ b }}\n}\nq({\n q({\n nop\n})\n})", "{ { { { { { { {", "( ( ( ( ( ( (", "lda ((((((((1", "lda #-1", "lda -1", "#-1", "-1", ".ascii 'a fairly long string, never closed, with enough characters", "'" + "x" * 40, "lda #1 %", "lda (", "lda [", "lda #(", "lda.w #A %", ".db 1 %", "'main.s'", ".include 'main.s'", "a.b.c", "a..b", "0x", "0b", "0o7", "1e5", "lda.", "lda.w", ".", "..", ".db", ".db ,", ",,", "{{ x", "x }}", "*=", "@= 1", "x :=", "x =", "m(,)", "m((", "))"]
 
 
 def lexical_bucket(text: bytes, at: int) -> str:
@@ -291,7 +291,7 @@ def progen_workload(rng: random.Random) -> dict[str, Any]:
     feats = {x for x in progen.ALL_FEATURES if rng.random() < 0.7} | {"data", "comments"}
     feats -= {"far_banks", "defines"}
     mapping = rng.choice(["low", "high"])
-    prog = progen.gen_program(rng, mapping, feats, [], size=rng.choice([6, 10, 14]))
+    prog = progen.gen_program(rng, mapping, feats, [], size=rng.choice([6, 10, 14]) if rng.random() < 0.93 else rng.choice([60, 120]))
     files = prog.all_files()
     roles = prog.all_roles()
     target = "main.s"
@@ -493,7 +493,7 @@ def expand(case: dict[str, Any], stats: Stats) -> Iterator[dict[str, Any]]:
             # the *unfaulted* workload does not finish: judged like any other input (second stage, guards)
             yield {"type": "single", "workload": wl, "faults": [], "entry": entry, "e0": 50_000}
             return
-        if o["steps"] > 50_000:
+        if o["steps"] > 150_000:
             stats.bump("generator_discard(fault-free run too long)")
             return
     data = wl["files"][wl["target"]]
